@@ -71,6 +71,8 @@ func runC17(c *Ctx) error {
 				if comp == "forwarder" {
 					cs.Msgs = append(cs.Msgs, c17Msg{UUID: "bad1", Payload: "not json at all", Meta: metas[1], Env: "notjson"},
 						c17Msg{UUID: "bad2", Payload: `{"destination_topic":"","uuid":"x","payload":"cGF5","metadata":{}}`, Meta: metas[0], Env: "emptydest"},
+						c17Msg{UUID: "bad3", Payload: "p3", Meta: metas[1], Env: "trailing"},
+						c17Msg{UUID: "bad4", Payload: "p4", Meta: metas[0], Env: "double"},
 						c17Msg{UUID: "u-last", Payload: "p", Meta: metas[2], Env: "valid", Dest: "dest-9"})
 				}
 				cases = append(cases, cs)
@@ -238,6 +240,21 @@ func c17Run(r *tr.Run, cs c17Case) {
 			case "batch":
 				batch = append(batch, orig)
 				batchIdx = append(batchIdx, len(dels))
+			case "trailing", "double":
+				// a well-formed envelope followed by more bytes is not a valid envelope
+				before := len(fwdCapture.Calls())
+				if err := fwdPub.Publish("dest-0", orig); err != nil {
+					r.Emit("error", "what", err.Error())
+					return
+				}
+				env := fwdCapture.Calls()[before].Msgs[0].Copy()
+				if m.Env == "trailing" {
+					env.Payload = append(append([]byte{}, env.Payload...), []byte(` {"x":1} trailing`)...)
+				} else {
+					env.Payload = append(append([]byte{}, env.Payload...), env.Payload...)
+				}
+				d.valid = false
+				d.mk = func() *message.Message { return env.Copy() }
 			default:
 				d.valid = false
 				d.mk = func() *message.Message { return orig.Copy() }
